@@ -246,6 +246,8 @@ def _gen_variants(rng, gene, contig_seq, opts):
                 vid += 1
                 w = dict(v, alt=alt, id=f"v{vid}")
                 gene["variants"][w["id"]] = w
+                if opts["multiallelic"] == "core":
+                    v["force_func"] = w["force_func"] = True  # every alternative of the site is a core variant
     # functional / silent split: at least half functional
     # (aldy only merges multi-nucleotide substitutions that are core variants,
     # sam.py `_multi_sites`, so generated MNPs are always functional)
@@ -255,7 +257,8 @@ def _gen_variants(rng, gene, contig_seq, opts):
     nfunc = max(1, (len(ids) + 1) // 2)
     for i, k in enumerate(ids):
         gene["variants"][k]["func"] = (i < nfunc or gene["variants"][k]["kind"] == "mnp"
-                                       or bool(gene["variants"][k].get("edge")))
+                                       or bool(gene["variants"][k].get("edge"))
+                                       or bool(gene["variants"][k].get("force_func")))
         gene["variants"][k]["rsid"] = f"rs{1000 + int(k[1:])}" if rng.random() < 0.7 else "-"
     # two insertions at different positions, 15-60 bp apart, the downstream inserted sequence equal to or a
     # prefix of the upstream one; one allele carries both in cis (see _gen_alleles)
